@@ -17,7 +17,7 @@ from ref import jws as rjws, keys as rk, selftest
 LEVEL = "exploration"
 RULE = ("direction A: joserfc signs a generated plan (14 algs x key classes x 3 serializations x b64 x header placement x "
         "payload class; key imported from JWK/PEM/DER), the strict reference verifier - given only key.as_dict(private=False) "
-        "parsed by a strict RFC 7517/7518 parser - must accept and recover payload and headers. direction B: the reference "
+        "parsed by a strict RFC 7517/7518 parser, or the JWK exported from a key object built from the public PEM / DER alone - must accept and recover payload and headers. direction B: the reference "
         "signs (RFC 6979 ECDSA, PSS salt=hLen) with a generated spelling of the protected header (whitespace, member order, "
         "\\u escapes, raw UTF-8) and joserfc must verify and recover payload and headers. Published example tokens are "
         "explicit cases. non-trivial: every case; distinct = (direction, plan label, spelling style, key class).")
